@@ -30,7 +30,7 @@ def specs():
 
 def units(bins, tier, seed):
     b = bins["c13_fileserver"]
-    cfgs, n = (QUICK_CFGS, 1500) if tier == "quick" else (ALL_CFGS, 40000)
+    cfgs, n = (QUICK_CFGS, 8000) if tier == "quick" else (ALL_CFGS, 40000)
     return [Unit("c13_fileserver.cfg%d" % c, [b], env={"C13_CFG": c, "RC_PARAMS": rc_params(seed * 1000 + c, n, 100)}, group="cfg%d" % c, timeout=7200) for c in cfgs]
 
 
@@ -48,7 +48,7 @@ def _replay_fn(bins):
 
 def run(tier, seed):
     return verif.standard(ID, tier, seed, specs(), units, RULE, level=LEVEL,
-                          floor=dict(("cfg%d" % c, 2500) for c in QUICK_CFGS),
+                          floor=dict(("cfg%d" % c, 6000) for c in QUICK_CFGS),
                           assumptions=["harness path model (percent decoder, stack normaliser, realpath) is correct",
                                        "PATH_INFO is a C string: the model cuts the decoded path at the first NUL"],
                           replay_fn=_replay_fn)
